@@ -8,6 +8,7 @@ CONSTANTS
   MaxCfg = 1
   MaxParse = 1
   Family = "c16"
+  Reconfigure = FALSE
   Emit = FALSE
 INVARIANTS
   Inv_Validators
